@@ -175,34 +175,52 @@ def run(ck):
     ck.ob("C05-R2", "client-writeRequest/content-length==body", ok, wr.loc, wr, "Content-Length: body.size() and `<< body`, both under !body.empty()")
 
     # ---------------- R3 ----------------
+    # chunk framing of the stream writers, read off the calls in source order with private helpers of ResponseStream and the
+    # callbacks handed to them expanded (the frame may be written once in a helper that is given the size and a data-emitting lambda)
+    def rs_expand(g_):
+        return g_.is_lambda or g_.cls == H + "ResponseStream"
+
+    def frame_of(fn_):
+        """[(kind, last-argument text)] kinds: hex, dec, crlf, ins (operator<< of anything else), write (ostream::write), size (Size<T>())"""
+        out_ = []
+        for e, args in lib.flat_calls(prog, fn_, rs_expand):
+            c_ = strip_tmpl(e.get("callee") or "")
+            last = (args[-1].get("t") or "") if args else ""
+            if e.get("op") == "<<":
+                if last.endswith("hex"):
+                    out_.append(("hex", last, e, args))
+                elif last.endswith("dec"):
+                    out_.append(("dec", last, e, args))
+                elif last.endswith("crlf"):
+                    out_.append(("crlf", last, e, args))
+                else:
+                    out_.append(("ins", last, e, args))
+            elif c_ == "std::basic_ostream::write":
+                out_.append(("write", last, e, args))
+            elif c_ == "Pistache::Size::operator()":
+                out_.append(("size", (args[0].get("t") or "") if args else "", e, args))
+        return out_
     w = lib.single(prog, RS + "write")
-    seq = []
-    for e in sorted(w.events("call"), key=lambda x: (-x.block, x.idx)):
-        if e.get("op") == "<<" or strip_tmpl(e.get("callee") or "") == "std::basic_ostream::write":
-            args = [a.get("t") or "" for a in e.get("args", [])]
-            seq.append((strip_tmpl(e.get("callee") or "").rsplit("::", 1)[-1], args))
-    flat = " | ".join("%s(%s)" % (n, ",".join(a)) for n, a in seq)
     szp, datap = w.params[1]["name"], w.params[0]["name"]
-    order = [i for i, (n, a) in enumerate(seq) if ("std::hex" in a or a == [szp] or a[-1:] == ["crlf"] or a[-1:] == ["Http::crlf"] or n == "write")]
-    ok = "std::hex" in flat and flat.find("std::hex") < flat.find("<<(" + szp) if ("<<(" + szp) in flat else False
-    names = [(n, a[-1] if a else "") for n, a in seq]
-    want = [("operator<<", "std::hex"), ("operator<<", szp), ("operator<<", "crlf"), ("write", szp), ("operator<<", "crlf")]
-    simp = [(n, (x.rsplit("::", 1)[-1])) for n, x in names]
-    ok = [x for x in simp if x in [(a, b.rsplit("::", 1)[-1]) for a, b in want]] == [(a, b.rsplit("::", 1)[-1]) for a, b in want]
-    wcall = [e for e in w.events("call") if strip_tmpl(e.get("callee") or "") == "std::basic_ostream::write"]
-    ok = ok and len(wcall) == 1 and wcall[0]["args"][0].get("v") == datap and wcall[0]["args"][1].get("v") == szp
+    fr = frame_of(w)
+    shape = [(k_, t_) for k_, t_, _e, _a in fr if k_ in ("hex", "crlf", "write") or (k_ == "ins" and t_ == szp)]
+    want = [("hex", None), ("ins", szp), ("crlf", None), ("write", szp), ("crlf", None)]
+    ok = len(shape) == len(want) and all(k_ == wk and (wt is None or t_ == wt) for (k_, t_), (wk, wt) in zip(shape, want))
+    wcall = [(e_, a_) for k_, t_, e_, a_ in fr if k_ == "write"]
+    ok = ok and len(wcall) == 1 and (wcall[0][1][0].get("t") or "") == datap and (wcall[0][1][1].get("t") or "") == szp
     ck.ob("C05-R3", "ResponseStream::write/frame", ok, w.loc, w, "hex %s, CRLF, write(%s, %s), CRLF" % (szp, datap, szp))
     ops = prog.find(H + "operator<<", 1)
     ops = [o for o in ops if o.params and "ResponseStream" in o.params[0]["type"] and len(o.params) == 2 and "(*" not in o.params[1]["type"]]
     ck.require(ops, "template operator<<(ResponseStream&, const T&) has no instantiation (inst driver missing)")
     for o in ops:
         vp = o.params[1]["name"]
-        calls = sorted([e for e in o.events("call") if e.get("op") == "<<"], key=lambda x: (-x.block, x.idx))
-        texts = [[a.get("t") or "" for a in e.get("args", [])] for e in calls]
-        flat = [t[-1].rsplit("::", 1)[-1] if t else "" for t in texts]
-        sizecall = [e for e in o.events("call") if strip_tmpl(e.get("callee") or "") == "Pistache::Size::operator()"]
-        ok = bool(sizecall) and sizecall[0]["args"][0].get("v") == vp and "hex" in " ".join(flat) and flat.count("crlf") == 2 and vp in flat \
-            and flat.index("hex") < flat.index(vp) and [x for x in flat if x in ("crlf", vp)][-3:] == ["crlf", vp, "crlf"]
+        fr = frame_of(o)
+        sizes = [t_ for k_, t_, _e, _a in fr if k_ == "size"]
+        # hex, <the size computed from the value>, CRLF, the value, CRLF
+        shape = [(k_, t_) for k_, t_, _e, _a in fr if k_ in ("hex", "crlf") or (k_ == "ins" and (t_ == vp or vp in t_ and "size" in t_.lower()))]
+        kinds = [k_ for k_, _t in shape]
+        vals = [t_ for k_, t_ in shape if k_ == "ins"]
+        ok = bool(sizes) and sizes[0] == vp and kinds[:1] == ["hex"] and kinds.count("crlf") == 2 and kinds[-3:] == ["crlf", "ins", "crlf"] and vals[-1:] == [vp]
         ck.ob("C05-R3", "operator<<(ResponseStream&, const T&)/frame", ok, o.loc, o, "hex size(%s), CRLF, %s, CRLF" % (vp, vp))
         # the numeric base selected for the size must not leak into the data: for arithmetic T the value would be printed in hex
         # while its size was computed from its decimal digits
@@ -210,10 +228,11 @@ def run(ck):
         arithmetic = ptype in ("int", "unsigned int", "long", "unsigned long", "short", "unsigned short", "long long", "unsigned long long",
                                "int8_t", "uint8_t", "int16_t", "uint16_t", "int32_t", "uint32_t", "int64_t", "uint64_t", "size_t", "ssize_t")
         if arithmetic:
-            vi = [i for i, t in enumerate(texts) if t and t[-1] == vp]
-            decs = [i for i, t in enumerate(texts) if t and t[-1].endswith("std::dec") or (t and t[-1] == "dec")]
-            hexi = [i for i, t in enumerate(texts) if t and t[-1].endswith("hex")]
-            leak = bool(hexi) and bool(vi) and not any(hexi[0] < d_ < vi[0] for d_ in decs)
+            seqk = [(k_, t_) for k_, t_, _e, _a in fr]
+            vi = [i for i, (k_, t_) in enumerate(seqk) if k_ == "ins" and t_ == vp]
+            decs = [i for i, (k_, t_) in enumerate(seqk) if k_ == "dec"]
+            hexi = [i for i, (k_, t_) in enumerate(seqk) if k_ == "hex"]
+            leak = bool(hexi) and bool(vi) and not any(hexi[0] < d_ < vi[-1] for d_ in decs)
             ck.ob("C05-R3", "operator<<(ResponseStream&, const T&)/base-restored-for-integers", not leak, o.loc, o,
                   "std::dec restored before an integer value is written" if not leak else
                   "std::hex set for the chunk size is still in effect when the %s value is written: the data is printed in hexadecimal while its "
@@ -229,8 +248,9 @@ def run(ck):
     ck.ob("C05-R3", "ResponseStream::ends/terminator", ok, en.loc, en, "\"0\" CRLF CRLF, `if (!os) throw`, then flush()")
     ctor = [f2 for f2 in prog.funcs.values() if f2.base == RS + "ResponseStream" and len(f2.params) >= 5]
     ck.require(ctor, "ResponseStream constructor not found")
-    te = [e for e in ctor[0].events("call") if comp_of(e) == "transfer-encoding"]
-    clh = [e for e in ctor[0].events("call") if comp_of(e) == "content-length"]
+    creg = lib.region(prog, ctor[0], within=lambda g_: g_.cls == H + "ResponseStream")
+    te = [e for g_ in creg for e in g_.events("call") if comp_of(e) == "transfer-encoding"]
+    clh = [e for g_ in creg for e in g_.events("call") if comp_of(e) == "content-length"]
     ok = len(te) == 1 and not clh and lib.refs_enumerator(te[0], H + "Header::Encoding::Chunked")
     ck.ob("C05-R3", "ResponseStream::ResponseStream/chunked-no-length", ok, ctor[0].loc, ctor[0], "Transfer-Encoding: chunked, no Content-Length")
 
